@@ -39,7 +39,9 @@ Section Fanout.
      hands back is published as a zone failure, no server of the zone gave a usable response. *)
   Definition fo_inv (st : fo_state) : Prop :=
     match fo_done st with
-    | Some o => fo_published o = true -> forallb (fun s => negb (srv_usable s)) servers = true
+    | Some o => fo_published o = true ->
+        forallb (fun s => negb (srv_usable s)) servers = true /\
+        length (fo_stat st) = n /\ count_live (fo_stat st) = O
     | None =>
         length (fo_stat st) = n /\
         (fo_index st < n)%nat /\
@@ -85,7 +87,9 @@ Section Fanout.
         unfold fo_inv, fo_finish. cbn [fo_done]. intros P.
         destruct (in_dec N.eq_dec rcode_nxdomain (fo_resp st)) as [X|X].
         * now rewrite pick_nxdomain in P.
-        * apply (all_consumed_unusable (fo_stat st) (fo_resp st)); auto. lia.
+        * cbn [fo_stat]. assert (Z0 : count_live (fo_stat st) = O) by lia.
+          split; [|split; [exact L | exact Z0]].
+          apply (all_consumed_unusable (fo_stat st) (fo_resp st)); auto.
       + (* start the next server *)
         apply Nat.eqb_neq in Last.
         unfold fo_inv. cbn [fo_done fo_stat fo_left fo_index fo_resp].
@@ -180,6 +184,18 @@ Section Fanout.
     intros D P. pose proof (fo_run_inv sched) as I. unfold fo_inv in I. rewrite D in I. now apply I.
   Qed.
 
+  (* ... and it was HEARD from every server: each one had been started and its result consumed *)
+  Theorem fanout_publishes_only_after_every_result sched o :
+    fo_done (fo_run servers level sched) = Some o -> fo_published o = true ->
+    forall j, (j < n)%nat -> nth_error (fo_stat (fo_run servers level sched)) j = Some StConsumed.
+  Proof.
+    intros D P j J. pose proof (fo_run_inv sched) as I. unfold fo_inv in I. rewrite D in I.
+    destruct (I P) as (_ & L & Z).
+    destruct (nth_error (fo_stat (fo_run servers level sched)) j) as [t|] eqn:T.
+    - now rewrite (count_live_zero _ Z j t T).
+    - apply nth_error_None in T. lia.
+  Qed.
+
   (* an answer is the response of a server that gave a usable one *)
   Definition ans_inv (st : fo_state) : Prop :=
     forall i, fo_done st = Some (FOAnswer i) -> nth i servers SSilent = SHealthy \/ nth i servers SSilent = SRcode 0.
@@ -224,7 +240,311 @@ Section Fanout.
       induction sched as [|e r IH]; intros st0 A0; cbn; [exact A0|]. apply IH. now apply ans_step. }
     apply A.
   Qed.
+
+  (* ---- the zone's failure state is cleared only after a usable response ------------------- *)
+  (* every collected response error is the rcode some server of the zone answers with; a
+     fallback response is one of the collected ones *)
+  Definition resp_inv (st : fo_state) : Prop :=
+    (forall rc, In rc (fo_resp st) -> exists j, nth j servers SSilent = SRcode rc) /\
+    (forall rc, fo_done st = Some (FOResponse rc) -> In rc (fo_resp st)).
+  Lemma pick_response_in resp cfg fatal rc : pick_fallback resp cfg fatal = FOResponse rc -> In rc resp.
+  Proof.
+    unfold pick_fallback. destruct (existsb (N.eqb rcode_nxdomain) resp) eqn:E.
+    - intros X. injection X as <-. apply existsb_exists in E as (x & I & Q). apply N.eqb_eq in Q. now subst x.
+    - destruct resp as [|r0 r]; [|intros X; injection X as <-; now left].
+      destruct (0 <? cfg)%nat; [discriminate|]. destruct (0 <? fatal)%nat; discriminate.
+  Qed.
+  Lemma resp_advance st : fo_done st = None -> resp_inv st -> resp_inv (fo_advance n st).
+  Proof.
+    intros D [R1 R2]. unfold fo_advance.
+    destruct ((0 <? fo_left st)%nat && (S (fo_index st) =? n)%nat); [now split|].
+    destruct (S (fo_index st) =? n)%nat.
+    - split; [exact R1|]. intros rc X. unfold fo_finish in X. cbn [fo_done] in X. injection X as X.
+      cbn [fo_resp fo_finish]. now apply pick_response_in in X.
+    - split; [exact R1|]. cbn [fo_done]. discriminate.
+  Qed.
+  Lemma resp_step st ev : resp_inv st -> resp_inv (fo_step servers level st ev).
+  Proof.
+    intros I. unfold fo_step. fold n.
+    destruct (fo_done st) as [o|] eqn:D; [exact I|].
+    destruct ev as [|i]; [now apply resp_advance|].
+    destruct (nth_error (fo_stat st) i) as [[| |]|]; try exact I.
+    destruct I as [R1 R2].
+    destruct (nth i servers SSilent) as [|rc| | |] eqn:Sv.
+    - split; [exact R1|]. unfold fo_finish. cbn [fo_done]. discriminate.
+    - destruct (rc =? 0)%N; [split; [exact R1|]; unfold fo_finish; cbn [fo_done]; discriminate|].
+      assert (R1' : forall x, In x (fo_resp st ++ [rc]) -> exists j, nth j servers SSilent = SRcode x).
+      { intros x X. apply in_app_or in X as [X|[<-|[]]]; [now apply R1 | now exists i]. }
+      destruct (((2 <? length (fo_resp st ++ [rc]))%nat || (level <? 2)%nat) && (rc =? rcode_nxdomain)%N).
+      + split; [exact R1'|]. intros x X. unfold fo_finish in X. cbn [fo_done fo_cfg fo_fatal] in X. injection X as X.
+        cbn [fo_resp fo_finish]. now apply pick_response_in in X.
+      + apply resp_advance; [reflexivity|]. split; [exact R1' | cbn [fo_done]; discriminate].
+    - apply resp_advance; [reflexivity|]. split; [exact R1 | cbn [fo_done]; discriminate].
+    - apply resp_advance; [reflexivity|]. split; [exact R1 | cbn [fo_done]; discriminate].
+    - split; [exact R1|]. unfold fo_finish. cbn [fo_done]. discriminate.
+  Qed.
+  Lemma resp_run sched : resp_inv (fo_run servers level sched).
+  Proof.
+    unfold fo_run. fold n.
+    assert (I0 : resp_inv (fo_init n)).
+    { split; [|intros rc X]; destruct n as [|[|m]]; cbn in *; try contradiction; try discriminate. }
+    revert I0. generalize (fo_init n).
+    induction sched as [|e r IH]; intros st0 I0; cbn; [exact I0|]. apply IH. now apply resp_step.
+  Qed.
+  Theorem fanout_clears_only_after_a_usable_response sched o :
+    fo_done (fo_run servers level sched) = Some o -> fo_cleared o = true ->
+    existsb srv_usable servers = true /\ fo_published o = false.
+  Proof.
+    intros D C. destruct o as [i|rc| | | |]; cbn in C; try discriminate.
+    - split; [|reflexivity]. apply existsb_exists.
+      destruct (fanout_answer_is_a_usable_response sched i D) as [E|E].
+      + exists SHealthy. split; [|reflexivity]. rewrite <- E. apply nth_In.
+        destruct (Nat.lt_ge_cases i (length servers)) as [L|L]; [exact L|]. rewrite nth_overflow in E by exact L. discriminate.
+      + exists (SRcode 0). split; [|reflexivity]. rewrite <- E. apply nth_In.
+        destruct (Nat.lt_ge_cases i (length servers)) as [L|L]; [exact L|]. rewrite nth_overflow in E by exact L. discriminate.
+    - apply N.eqb_eq in C. subst rc. split; [|reflexivity].
+      destruct (resp_run sched) as [R1 R2]. destruct (R1 _ (R2 _ D)) as [j E].
+      apply existsb_exists. exists (SRcode rcode_nxdomain). split; [|reflexivity]. rewrite <- E. apply nth_In.
+      destruct (Nat.lt_ge_cases j (length servers)) as [L|L]; [exact L|]. rewrite nth_overflow in E by exact L. discriminate.
+  Qed.
+
+  (* ---- ticks and results commute: why an observed schedule needs no tick positions -------- *)
+  Lemma set_nth_comm {A} (l : list A) i j a b :
+    i <> j -> set_nth (set_nth l i a) j b = set_nth (set_nth l j b) i a.
+  Proof.
+    revert i j. induction l as [|x l IH]; intros [|i] [|j] NE; cbn; try reflexivity; try congruence.
+    f_equal. apply IH. congruence.
+  Qed.
+  Lemma count_live_pending l i : nth_error l i = Some StPending -> (1 <= count_live l)%nat.
+  Proof.
+    revert i. induction l as [|x l IH]; intros [|i] E; cbn in *; try discriminate.
+    - injection E as ->. unfold count_live. cbn. lia.
+    - unfold count_live in *. cbn. specialize (IH i E). destruct (live x); cbn; lia.
+  Qed.
+
+  (* what consuming a non-final result leaves, before the loop decides how to go on *)
+  Definition running (st : fo_state) : Prop :=
+    fo_done st = None /\ length (fo_stat st) = n /\ (fo_index st < n)%nat /\
+    (count_live (fo_stat st) <= fo_left st)%nat /\
+    (forall j s, nth_error (fo_stat st) j = Some s -> s <> StUnstarted -> (j <= fo_index st)%nat).
+  Lemma running_of_inv st : fo_done st = None -> fo_inv st -> running st.
+  Proof. intros D I. unfold fo_inv in I. rewrite D in I. destruct I as (L & IX & C & B & _). now repeat split. Qed.
+
+  (* a tick on a running state with a result outstanding never ends the lookup *)
+  Lemma advance_core idx stat left resp cfg fatal i :
+    length stat = n -> (idx < n)%nat -> nth_error stat i = Some StPending -> (i <= idx)%nat ->
+    (count_live stat <= left)%nat ->
+    fo_advance n (mk_fo idx stat left resp cfg fatal None) =
+      if (S idx =? n)%nat then mk_fo idx stat left resp cfg fatal None
+      else mk_fo (S idx) (set_nth stat (S idx) StPending) left resp cfg fatal None.
+  Proof.
+    intros L IX P I C. pose proof (count_live_pending _ _ P) as C1.
+    unfold fo_advance. cbn [fo_index fo_left fo_stat fo_resp fo_cfg fo_fatal].
+    destruct (S idx =? n)%nat eqn:Last.
+    - assert (E : (0 <? left)%nat = true) by (apply Nat.ltb_lt; lia). now rewrite E.
+    - now rewrite andb_false_r.
+  Qed.
+
+  Lemma timer_commutes_with_result st i :
+    fo_done st = None -> fo_inv st -> nth_error (fo_stat st) i = Some StPending ->
+    fo_step servers level (fo_step servers level st FoTimer) (FoResult i) =
+    fo_step servers level (fo_step servers level st (FoResult i)) FoTimer
+    \/ (exists o, fo_done (fo_step servers level st (FoResult i)) = Some o /\
+                  fo_done (fo_step servers level (fo_step servers level st FoTimer) (FoResult i)) = Some o).
+  Proof.
+    intros D I P. destruct (running_of_inv st D I) as (_ & L & IX & C & B).
+    assert (Ii : (i <= fo_index st)%nat) by (apply (B _ _ P); discriminate).
+    pose proof (count_live_pending _ _ P) as C1.
+    (* the tick *)
+    assert (T : fo_step servers level st FoTimer =
+                if (S (fo_index st) =? n)%nat then st
+                else mk_fo (S (fo_index st)) (set_nth (fo_stat st) (S (fo_index st)) StPending)
+                           (fo_left st) (fo_resp st) (fo_cfg st) (fo_fatal st) None).
+    { unfold fo_step. rewrite D. fold n. unfold fo_advance.
+      destruct (S (fo_index st) =? n)%nat eqn:Last.
+      - assert (E : (0 <? fo_left st)%nat = true) by (apply Nat.ltb_lt; lia). now rewrite E.
+      - now rewrite andb_false_r. }
+    destruct (S (fo_index st) =? n)%nat eqn:Last.
+    { (* at the last server a tick changes nothing, before or after *)
+      rewrite T. left.
+      set (st' := fo_step servers level st (FoResult i)).
+      destruct (fo_done st') as [o|] eqn:D'.
+      - unfold fo_step at 1. now rewrite D'.
+      - (* st' still runs at the last server with a result outstanding *)
+        unfold fo_step at 1. rewrite D'. fold n.
+        assert (Ix' : fo_index st' = fo_index st /\ (0 <? fo_left st')%nat = true).
+        { subst st'. unfold fo_step in D' |- *. rewrite D in D' |- *. fold n in D' |- *. rewrite P in D' |- *.
+          destruct (nth i servers SSilent) as [|rc| | |]; cbv beta iota zeta in D' |- *;
+            try (unfold fo_finish in D'; cbn in D'; discriminate).
+          - destruct (rc =? 0)%N; [unfold fo_finish in D'; cbn in D'; discriminate|].
+            destruct (((2 <? length (fo_resp st ++ [rc]))%nat || (level <? 2)%nat) && (rc =? rcode_nxdomain)%N);
+              [unfold fo_finish in D'; cbn in D'; discriminate|].
+            unfold fo_advance in D' |- *. cbn [fo_index fo_left] in D' |- *. rewrite Last in D' |- *. rewrite andb_true_r in D' |- *.
+            destruct (0 <? pred (fo_left st))%nat eqn:K; [now split | unfold fo_finish in D'; cbn in D'; discriminate].
+          - unfold fo_advance in D' |- *. cbn [fo_index fo_left] in D' |- *. rewrite Last in D' |- *. rewrite andb_true_r in D' |- *.
+            destruct (0 <? pred (fo_left st))%nat eqn:K; [now split | unfold fo_finish in D'; cbn in D'; discriminate].
+          - unfold fo_advance in D' |- *. cbn [fo_index fo_left] in D' |- *. rewrite Last in D' |- *. rewrite andb_true_r in D' |- *.
+            destruct (0 <? pred (fo_left st))%nat eqn:K; [now split | unfold fo_finish in D'; cbn in D'; discriminate]. }
+        destruct Ix' as [E1 E2]. unfold fo_advance. rewrite E1, Last, E2. reflexivity. }
+    (* a server is still unstarted: the tick starts it *)
+    rewrite T. apply Nat.eqb_neq in Last.
+    assert (NE : S (fo_index st) <> i) by lia.
+    assert (P' : nth_error (set_nth (fo_stat st) (S (fo_index st)) StPending) i = Some StPending).
+    { rewrite nth_error_set_nth. destruct (Nat.eqb_spec (S (fo_index st)) i) as [EQ|NQ]; [lia | exact P]. }
+    assert (CM : set_nth (set_nth (fo_stat st) (S (fo_index st)) StPending) i StConsumed =
+                 set_nth (set_nth (fo_stat st) i StConsumed) (S (fo_index st)) StPending) by (now apply set_nth_comm).
+    (* the consumed, non-final shape on both sides *)
+    assert (core : forall resp cfg fatal,
+      fo_advance n (mk_fo (S (fo_index st)) (set_nth (set_nth (fo_stat st) (S (fo_index st)) StPending) i StConsumed)
+                          (pred (fo_left st)) resp cfg fatal None) =
+      fo_step servers level
+        (fo_advance n (mk_fo (fo_index st) (set_nth (fo_stat st) i StConsumed) (pred (fo_left st)) resp cfg fatal None)) FoTimer).
+    { intros resp cfg fatal.
+      assert (A1 : fo_advance n (mk_fo (fo_index st) (set_nth (fo_stat st) i StConsumed) (pred (fo_left st)) resp cfg fatal None) =
+                   mk_fo (S (fo_index st)) (set_nth (set_nth (fo_stat st) i StConsumed) (S (fo_index st)) StPending)
+                         (pred (fo_left st)) resp cfg fatal None).
+      { unfold fo_advance. cbn [fo_index fo_left fo_stat fo_resp fo_cfg fo_fatal].
+        destruct (Nat.eqb_spec (S (fo_index st)) n) as [EQ|NQ]; [lia|]. now rewrite andb_false_r. }
+      rewrite A1. unfold fo_step. cbn [fo_done]. fold n. now rewrite CM. }
+    unfold fo_step at 1 3. cbn [fo_done fo_stat]. rewrite D. fold n. rewrite P, P'.
+    cbn [fo_index fo_left fo_resp fo_cfg fo_fatal].
+    destruct (nth i servers SSilent) as [|rc| | |] eqn:Sv.
+    - right. unfold fo_step. cbn [fo_done fo_stat]. rewrite D. fold n. rewrite P, P', Sv. eexists. split; reflexivity.
+    - destruct (rc =? 0)%N eqn:R0.
+      { right. unfold fo_step. cbn [fo_done fo_stat]. rewrite D. fold n. rewrite P, P', Sv, R0. eexists. split; reflexivity. }
+      destruct (((2 <? length (fo_resp st ++ [rc]))%nat || (level <? 2)%nat) && (rc =? rcode_nxdomain)%N) eqn:Early.
+      + right. unfold fo_step. cbn [fo_done fo_stat fo_resp fo_cfg fo_fatal]. rewrite D. fold n. rewrite P, P', Sv, R0, Early.
+        eexists. split; reflexivity.
+      + left. apply core.
+    - left. apply core.
+    - left. apply core.
+    - right. unfold fo_step. cbn [fo_done fo_stat]. rewrite D. fold n. rewrite P, P', Sv. eexists. split; reflexivity.
+  Qed.
+
+  (* ---- an observed schedule is a schedule: the universal theorems apply to what the lab saw *)
+  Lemma fo_observed_is_a_run st0 evs st :
+    fo_observed servers level st0 evs = Some st ->
+    exists sched, st = fold_left (fo_step servers level) sched st0.
+  Proof.
+    revert st0. induction evs as [|[a i] r IH]; intros st0 E; cbn in E.
+    - injection E as <-. now exists [].
+    - destruct (fo_done st0); [discriminate|].
+      destruct (fo_started _ =? a)%nat; [|discriminate].
+      destruct (nth_error _ i) as [[| |]|]; try discriminate.
+      apply IH in E as [sched ->].
+      exists (repeat FoTimer (a - fo_started st0) ++ FoResult i :: sched).
+      rewrite fold_left_app. reflexivity.
+  Qed.
+  Theorem observed_publication_means_every_server_failed evs st o :
+    fo_observed servers level (fo_init n) evs = Some st -> fo_done st = Some o -> fo_published o = true ->
+    forallb (fun s => negb (srv_usable s)) servers = true /\
+    forall j, (j < n)%nat -> nth_error (fo_stat st) j = Some StConsumed.
+  Proof.
+    intros E D P. apply fo_observed_is_a_run in E as [sched ->]. fold (fo_run servers level sched) in *.
+    split; [eapply fanout_publishes_only_when_every_server_failed; eauto
+           | now apply (fanout_publishes_only_after_every_result sched o)].
+  Qed.
 End Fanout.
+
+(* ---- completeness: a zone all of whose servers are lame IS recorded ------------------------ *)
+Section Lame.
+  Variable servers : list srv.
+  Variable level : nat.
+  Let n := length servers.
+  Hypothesis all_lame : forallb srv_lame servers = true.
+  Hypothesis some_server : servers <> [].
+
+  Lemma lame_nth i : (i < n)%nat -> srv_lame (nth i servers SSilent) = true.
+  Proof. intros L. rewrite forallb_forall in all_lame. apply all_lame. now apply nth_In. Qed.
+
+  (* no bogus delegation has been collected; a collected response error is a lame rcode; every
+     result is either outstanding or collected; an ended lookup ended published *)
+  Definition lame_inv (st : fo_state) : Prop :=
+    fo_cfg st = O /\
+    (forall rc, In rc (fo_resp st) -> (rc =? 0)%N = false /\ (rc =? rcode_nxdomain)%N = false) /\
+    (fo_done st = None -> (fo_left st + length (fo_resp st) + fo_fatal st = n)%nat) /\
+    (forall o, fo_done st = Some o -> fo_published o = true).
+
+  Lemma pick_lame resp fatal :
+    (forall rc, In rc resp -> (rc =? 0)%N = false /\ (rc =? rcode_nxdomain)%N = false) ->
+    (0 < length resp + fatal)%nat ->
+    fo_published (pick_fallback resp O fatal) = true.
+  Proof.
+    intros R NE. unfold pick_fallback.
+    destruct (existsb (N.eqb rcode_nxdomain) resp) eqn:E.
+    - apply existsb_exists in E as (x & I & Q). apply N.eqb_eq in Q. subst x.
+      destruct (R _ I) as [_ X]. rewrite N.eqb_refl in X. discriminate.
+    - destruct resp as [|r0 r].
+      + destruct fatal as [|f]; [cbn in NE; lia | reflexivity].
+      + destruct (R r0 (or_introl eq_refl)) as [A B]. cbn. now rewrite A, B.
+  Qed.
+
+  Lemma lame_advance st : fo_done st = None -> lame_inv st -> lame_inv (fo_advance n st).
+  Proof.
+    intros D (C & R & Cnt & _). specialize (Cnt D). unfold fo_advance.
+    destruct ((0 <? fo_left st)%nat && (S (fo_index st) =? n)%nat) eqn:K.
+    - refine (conj C (conj R (conj (fun _ => Cnt) _))). intros o X. congruence.
+    - destruct (S (fo_index st) =? n)%nat eqn:Last.
+      + rewrite andb_true_r in K. apply Nat.ltb_ge in K.
+        unfold fo_finish, lame_inv. cbn [fo_cfg fo_resp fo_done fo_left fo_fatal].
+        refine (conj C (conj R (conj _ _))); [discriminate|].
+        intros o X. injection X as <-. rewrite C. apply pick_lame; [exact R|].
+        assert (N0 : (0 < n)%nat) by (unfold n; destruct servers; [congruence | cbn; lia]). lia.
+      + unfold lame_inv. cbn [fo_cfg fo_resp fo_done fo_left fo_fatal].
+        refine (conj C (conj R (conj (fun _ => Cnt) _))). discriminate.
+  Qed.
+
+  Lemma lame_step st ev : fo_inv servers st -> lame_inv st -> lame_inv (fo_step servers level st ev).
+  Proof.
+    intros FI I. unfold fo_step. fold n.
+    destruct (fo_done st) as [o|] eqn:D; [exact I|].
+    destruct ev as [|i]; [now apply lame_advance|].
+    destruct (nth_error (fo_stat st) i) as [[| |]|] eqn:T; try exact I.
+    destruct I as (C & R & Cnt & _). specialize (Cnt D).
+    unfold fo_inv in FI. rewrite D in FI. destruct FI as (L & _ & CL & _ & _).
+    assert (Li : (i < n)%nat) by (unfold n; rewrite <- L; apply nth_error_Some; congruence).
+    pose proof (count_live_pending servers _ _ T) as C1.
+    pose proof (lame_nth i Li) as Lm.
+    destruct (nth i servers SSilent) as [|rc| | |] eqn:Sv; cbn in Lm; try discriminate.
+    - apply andb_true_iff in Lm as [R0 R3]. apply negb_true_iff in R0, R3. rewrite R0, R3.
+      rewrite andb_false_r.
+      apply lame_advance; [reflexivity|].
+      unfold lame_inv. cbn [fo_cfg fo_resp fo_done fo_left fo_fatal].
+      refine (conj C (conj _ (conj _ _))); [| |discriminate].
+      + intros x X. apply in_app_or in X as [X|[<-|[]]]; [now apply R | now split].
+      + intros _. rewrite app_length. cbn. lia.
+    - apply lame_advance; [reflexivity|].
+      unfold lame_inv. cbn [fo_cfg fo_resp fo_done fo_left fo_fatal].
+      refine (conj C (conj R (conj _ _))); [|discriminate].
+      intros _. lia.
+  Qed.
+
+  Theorem all_lame_zone_is_published sched o :
+    fo_done (fo_run servers level sched) = Some o -> fo_published o = true.
+  Proof.
+    assert (A : lame_inv (fo_run servers level sched) /\ fo_inv servers (fo_run servers level sched)).
+    { unfold fo_run. fold n.
+      assert (I0 : lame_inv (fo_init n)).
+      { assert (N0 : (0 < n)%nat) by (unfold n; destruct servers; [congruence | cbn; lia]).
+        unfold lame_inv. destruct n as [|[|m]]; [lia| |]; cbn;
+          (refine (conj eq_refl (conj _ (conj _ _))); [intros rc [] | intros _; rewrite ?repeat_length; lia | discriminate]). }
+      pose proof (fo_init_inv servers) as F0. fold n in F0.
+      revert I0 F0. generalize (fo_init n).
+      induction sched as [|e r IH]; intros st0 I0 F0; cbn; [now split|].
+      apply IH; [now apply lame_step | now apply fo_step_inv]. }
+    destruct A as [(_ & _ & _ & P) _]. apply P.
+  Qed.
+End Lame.
+
+(* the same on every state a schedule can reach *)
+Theorem reachable_timer_commutes_with_result servers level sched i :
+  let st := fo_run servers level sched in
+  fo_done st = None -> nth_error (fo_stat st) i = Some StPending ->
+  fo_step servers level (fo_step servers level st FoTimer) (FoResult i) =
+  fo_step servers level (fo_step servers level st (FoResult i)) FoTimer
+  \/ (exists o, fo_done (fo_step servers level st (FoResult i)) = Some o /\
+                fo_done (fo_step servers level (fo_step servers level st FoTimer) (FoResult i)) = Some o).
+Proof. intros st D P. apply timer_commutes_with_result; auto. apply fo_run_inv. Qed.
 
 (* non-vacuity: four authorities — REFUSED, REFUSED, REFUSED, healthy — with the healthy one heard
    last: the lookup goes on past three equal failure rcodes and ends with the answer; with a fourth
@@ -239,4 +559,30 @@ Example ex_fanout_lame_majority :
   (* an NXDOMAIN from a TLD's server ends the lookup although a server is unheard: nothing is published *)
   fo_done (fo_run [SRcode 2; SRcode 3; SRcode 5] 1 (map FoResult [0; 1]%nat)) = Some (FOResponse 3) /\
   fo_published (FOResponse 3) = false.
+Proof. vm_compute. repeat split. Qed.
+
+(* non-vacuity of the observed-schedule run (two schedules the lab driver saw on the real
+   Resolver.lookup): six servers of a third-level zone, REFUSED x4, NXDOMAIN, NOTIMP, started one
+   by one by the consumed failures, the NXDOMAIN heard fifth: the lookup ends there, with the
+   NXDOMAIN, nothing published, the sixth reply never needed; two lame servers of a TLD, both
+   heard: the first response error is handed back and published *)
+Example ex_fanout_observed :
+  let sv1 := [SRcode 5; SRcode 5; SRcode 5; SRcode 5; SRcode 3; SRcode 4] in
+  let sv2 := [SRcode 5; SRcode 2] in
+  option_map fo_done (fo_observed sv1 3 (fo_init 6) [(2,0);(3,1);(4,3);(5,2);(6,4)]%nat) = Some (Some (FOResponse 3)) /\
+  fo_observed sv1 3 (fo_init 6) [(2,0);(3,1);(4,3);(5,2);(6,4);(6,5)]%nat = None /\
+  option_map fo_done (fo_observed sv2 1 (fo_init 2) [(2,1);(2,0)]%nat) = Some (Some (FOResponse 2)) /\
+  fo_all_heard 2 [(2,1);(2,0)]%nat = true /\
+  (* a started count the ticks cannot explain *)
+  fo_observed sv2 1 (fo_init 2) [(1,0)]%nat = None.
+Proof. vm_compute. repeat split. Qed.
+
+(* non-vacuity of the completeness statement: five lame servers (three rcodes, two that never
+   answer), results in an arbitrary order with ticks in between: the lookup ends with the response error
+   that came first, published *)
+Example ex_all_lame_published :
+  let sv := [SRcode 5; SSilent; SRcode 2; SRcode 9; SSilent] in
+  forallb srv_lame sv = true /\
+  fo_done (fo_run sv 2 [FoResult 1; FoTimer; FoResult 3; FoResult 0; FoTimer; FoResult 2; FoTimer; FoResult 4]%nat) = Some (FOResponse 9) /\
+  fo_published (FOResponse 9) = true.
 Proof. vm_compute. repeat split. Qed.
